@@ -1,6 +1,6 @@
 #!/bin/bash
 # usage: allchecks.sh <tier> <seed...>  -- runs every claimed check for each seed, prints one line per run
-cd /verif
+cd "$(dirname "$0")/.."
 tier=$1; shift
 for s in "$@"; do
   for c in C01 C02 C03 C04 C05 C06 C07 C08 C09 C10 C11 C12 C13 C14 C15 C16 C17 C18 C19 C20; do
